@@ -67,23 +67,52 @@ _F_MAX2 = np.frompyfunc(lambda a, b: smax([a, b]), 2, 1)
 _F_MIN2 = np.frompyfunc(lambda a, b: smin([a, b]), 2, 1)
 
 
-def _reduce(arr, axis, fold, initial=None, empty_error="reduction of an empty array"):
+def _reduce(arr, axis, fold, initial=None, empty_error="reduction of an empty array", where=True, keepdims=False, out=None):
     base = np.asarray(arr).view(np.ndarray)
+    if out is not None:
+        raise HarnessError("reduction with out= on a symbolic array not modelled")
+    if where is np._NoValue:
+        where = True
+    if keepdims is np._NoValue:
+        keepdims = False
+    mask = None
+    if where is not True:
+        mask = np.asarray(where)
+        if mask.dtype == object:
+            if builtins.any(not _is_concrete_bool(x) for x in mask.flat):
+                raise HarnessError("reduction under a symbolic where= mask not modelled")
+            mask = np.array([bool(x) for x in mask.flat], dtype=bool).reshape(mask.shape)
+        mask = np.broadcast_to(mask.astype(bool), base.shape)
+    if isinstance(axis, tuple):
+        if builtins.sorted(a % base.ndim for a in axis) == list(range(base.ndim)):
+            axis = None
+        else:
+            raise HarnessError("reduction over several (not all) axes on a symbolic array not modelled")
     if axis is None:
-        items = list(base.flat)
+        items = [x for i, x in enumerate(base.flat) if mask is None or mask.flat[i]]
         if initial is not None:
             items.append(initial)
         if not items:
             raise ValueError(empty_error)
-        return fold(items)
+        r = fold(items)
+        if keepdims:
+            o = np.empty((1,) * base.ndim, dtype=object)
+            o[(0,) * base.ndim] = r
+            return o.view(SymArray)
+        return r
     moved = np.moveaxis(base, axis, 0)
-    out = np.empty(moved.shape[1:], dtype=object)
+    mmask = np.moveaxis(mask, axis, 0) if mask is not None else None
+    res = np.empty(moved.shape[1:], dtype=object)
     for idx in np.ndindex(*moved.shape[1:]):
-        items = [moved[(k,) + idx] for k in range(moved.shape[0])]
+        items = [moved[(k,) + idx] for k in range(moved.shape[0]) if mmask is None or mmask[(k,) + idx]]
         if initial is not None:
             items.append(initial)
-        out[idx] = fold(items)
-    return out.view(SymArray)
+        if not items:
+            raise ValueError(empty_error)
+        res[idx] = fold(items)
+    if keepdims:
+        res = np.expand_dims(res, axis)
+    return res.view(SymArray)
 
 
 def _all(items):
@@ -161,16 +190,17 @@ class SymArray(np.ndarray):
             initial = kw.get("initial", None)
             if initial is np._NoValue:
                 initial = None
+            rk = {"where": kw.get("where", True), "keepdims": kw.get("keepdims", False), "out": kw.get("out")}
             if ufunc is np.maximum:
-                return _reduce(ins[0], axis, smax, initial)
+                return _reduce(ins[0], axis, smax, initial, **rk)
             if ufunc is np.minimum:
-                return _reduce(ins[0], axis, smin, initial)
+                return _reduce(ins[0], axis, smin, initial, **rk)
             if ufunc is np.add:
-                return _reduce(ins[0], axis, lambda it: ssum(it), initial if initial is not None else 0)
+                return _reduce(ins[0], axis, lambda it: ssum(it), initial if initial is not None else 0, **rk)
             if ufunc is np.logical_and:
-                return _reduce(ins[0], axis, _all)
+                return _reduce(ins[0], axis, lambda it: _all(it), True, **rk)
             if ufunc is np.logical_or:
-                return _reduce(ins[0], axis, _any)
+                return _reduce(ins[0], axis, lambda it: _any(it), False, **rk)
         res = getattr(ufunc, method)(*ins, **kw)
         if out is not None:
             return out[0] if len(out) == 1 else out
@@ -189,25 +219,27 @@ class SymArray(np.ndarray):
 
     # explicit methods (numpy's own methods bypass __array_function__)
     def max(self, axis=None, out=None, keepdims=False, initial=None, where=True):
-        return _reduce(self, axis, smax, initial, "zero-size array to reduction operation maximum which has no identity")
+        return _reduce(self, axis, smax, initial, "zero-size array to reduction operation maximum which has no identity", where, keepdims, out)
 
     def min(self, axis=None, out=None, keepdims=False, initial=None, where=True):
-        return _reduce(self, axis, smin, initial, "zero-size array to reduction operation minimum which has no identity")
+        return _reduce(self, axis, smin, initial, "zero-size array to reduction operation minimum which has no identity", where, keepdims, out)
 
     def sum(self, axis=None, dtype=None, out=None, keepdims=False, initial=0, where=True):
-        return _reduce(self, axis, lambda it: ssum(it), initial)
+        return _reduce(self, axis, lambda it: ssum(it), initial, where=where, keepdims=keepdims, out=out)
 
     def mean(self, axis=None, dtype=None, out=None, keepdims=False, where=True):
         base = self.view(np.ndarray)
+        if where is not True and where is not np._NoValue:
+            raise HarnessError("mean under a where= mask not modelled")
         n = base.size if axis is None else base.shape[axis]
-        s = _reduce(self, axis, lambda it: ssum(it), 0)
+        s = _reduce(self, axis, lambda it: ssum(it), 0, keepdims=keepdims, out=out)
         return s / n
 
     def all(self, axis=None, out=None, keepdims=False, where=True):
-        return _reduce(self, axis, _all) if self.size else True
+        return _reduce(self, axis, lambda it: _all(it), True, where=where, keepdims=keepdims, out=out)
 
     def any(self, axis=None, out=None, keepdims=False, where=True):
-        return _reduce(self, axis, _any) if self.size else False
+        return _reduce(self, axis, lambda it: _any(it), False, where=where, keepdims=keepdims, out=out)
 
     def argmin(self, axis=None, out=None, **kw):
         return _argext(self, axis, lambda a, b: a < b)
@@ -266,38 +298,56 @@ def handles(f):
 def _np_max(a, axis=None, out=None, keepdims=False, initial=None, where=True):
     if initial is np._NoValue:
         initial = None
-    return _reduce(a, axis, smax, initial, "zero-size array to reduction operation maximum which has no identity")
+    return _reduce(a, axis, smax, initial, "zero-size array to reduction operation maximum which has no identity", where, keepdims, out)
 
 
 @handles(np.min)
 def _np_min(a, axis=None, out=None, keepdims=False, initial=None, where=True):
     if initial is np._NoValue:
         initial = None
-    return _reduce(a, axis, smin, initial, "zero-size array to reduction operation minimum which has no identity")
+    return _reduce(a, axis, smin, initial, "zero-size array to reduction operation minimum which has no identity", where, keepdims, out)
 
 
 @handles(np.sum)
 def _np_sum(a, axis=None, dtype=None, out=None, keepdims=False, initial=0, where=True):
     if initial is np._NoValue:
         initial = 0
-    return _reduce(a, axis, lambda it: ssum(it), initial)
+    return _reduce(a, axis, lambda it: ssum(it), initial, where=where, keepdims=keepdims, out=out)
+
+
+def _kw(kw, allowed):
+    bad = [k for k, v in kw.items() if k not in allowed and v is not None and v is not np._NoValue]
+    if bad:
+        raise HarnessError(f"reduction keyword(s) {bad} on a symbolic array not modelled")
+    return {k: v for k, v in kw.items() if k in allowed and v is not np._NoValue}
 
 
 @handles(np.mean)
 def _np_mean(a, axis=None, **kw):
-    return np.asarray(a).view(SymArray).mean(axis=axis)
+    return np.asarray(a).view(SymArray).mean(axis=axis, **_kw(kw, ("keepdims", "where", "out")))
+
+
+@handles(np.std)
+def _np_std(a, axis=None, ddof=0, **kw):
+    arr = np.asarray(a).view(SymArray)
+    _kw(kw, ())
+    m = arr.mean(axis=axis, keepdims=True)
+    n = arr.size if axis is None else arr.shape[axis]
+    dev = (arr - m)
+    var = _reduce(np.square(dev), axis, lambda it: ssum(it), 0) / (n - ddof)
+    if isinstance(var, np.ndarray):
+        return _wrap(_F_SQRT(_base(var)))
+    return usqrt(var)
 
 
 @handles(np.all)
 def _np_all(a, axis=None, **kw):
-    a = np.asarray(a)
-    return _reduce(a, axis, _all) if a.size else True
+    return np.asarray(a).view(SymArray).all(axis=axis, **_kw(kw, ("keepdims", "where", "out")))
 
 
 @handles(np.any)
 def _np_any(a, axis=None, **kw):
-    a = np.asarray(a)
-    return _reduce(a, axis, _any) if a.size else False
+    return np.asarray(a).view(SymArray).any(axis=axis, **_kw(kw, ("keepdims", "where", "out")))
 
 
 @handles(np.argmin)
